@@ -114,6 +114,18 @@ def _one_exit(chk, fi, ex, rules):
                                   "Step.run returns %s although the step ended %s (%s)" % (
                                       ret, status, "false green: failure not propagated" if hf else "false red")))
 
+        # no false green at the source: a step function that raised anything but the pending family ends failing
+        outcome = f["stepfunc"]
+        if f["found"] and not base_hook and f["dry_run"] is False and outcome not in (None, "return", "skip-scenario") and status is not None:
+            base = oracle.stepfunc_exc_status(chk.ix, outcome)
+            if base in ("failed", "error"):
+                if status in oracle.HAS_FAILED:
+                    chk.ok("V1", {"step_function_raises": outcome, "status": status}, nontrivial_key=("raise", outcome, bool(f["wip"])))
+                else:
+                    chk.fail(_finding("V1", fi, ex, "raises=%s wip=%s -> status=%s" % (outcome, bool(f["wip"]), status),
+                                      "false green: the step function raised %s (not a pending-step marker) but the step ends %s, "
+                                      "which does not fail the scenario" % (outcome, status)))
+
     # ---- S1 / S2 ----------------------------------------------------------------------
     if "S1" in rules and not base_hook:
         dry = f["dry_run"]
